@@ -7,8 +7,18 @@ class C02(Prop):
     coq_targets = ["props/C02.vo"]
     props_file = "props/C02.v"
     design_ref = "DESIGN.md §4 C02"
-    level_text = "(see props/C02.v)"
-    level_note = "(see props/C02.v)"
+    level_text = ("Coq theorems over all strings (models with explicit Panic / OutOfFuel outcomes): a value or an error — never a panic site, never "
+                  "fuel exhaustion — for Deb822::{from_str, from_str_relaxed, read, read_relaxed} and Paragraph::from_str (also: at most 3 errors "
+                  "per character, nesting depth <= 4), lossy::{Deb822, Paragraph}::from_str, lossless Relations::{from_str, parse_relaxed x2}, "
+                  "Entry::from_str, Relation::from_str, strip_pgp_signature, the seven keyword enumerations (tables regenerated from the sources) "
+                  "and ParsedVcs::from_str. PARTIAL: (a) wall-clock time, real stack and allocator are measured, not proved: the totality stream "
+                  "runs all ~58 public entry points on every case under a supervisor (panic / hang / abort are violations) and totality-scale "
+                  "times every entry point on adversarial seeds of growing size (worse-than-quadratic growth or > 5 s is a violation); (b) the "
+                  "entry points that go through the derive macro or an external parser (Control, apt, changes, buildinfo, removal, copyright "
+                  "from_str, DEP-3, APT sources, lossy relations, checksum/record FromStr) are decided by the stream (outcome classes of the "
+                  "modelled ones are also compared with their models).")
+    level_note = ("Models: the cones of C01, C06, C09, C17, C18, C19 (their own notes apply). Trusted in addition: the harness supervisor "
+                  "(per-case time budget VERIF_CASE_MS, kills and restarts the worker), timing thresholds of totality-scale.")
     rule = ("totality: every one of the ~58 public text-parsing entry points of the five crates on the same input: hand-written snippets of "
             "every file kind with all their truncations, CRLF / trailing-CR / non-ASCII / upper-case variants; every string up to length n over "
             "{A : SP LF - # U+00E9 ( < [}; generated and mutated deb822 documents and relationship fields; totality-scale: wall-clock of every "
